@@ -84,6 +84,22 @@ def util_oracle(res, cux, s):
         return None
     if seq != seq0 or sst != sst0:
         res.violation('split_complex_db:modifies-input', {'op': ['split', ' '.join(seq0), s]}, 'input changed', 'inputs untouched')
+    if len(s) <= 12:
+        # the pair-table entry point: deep comparison of BOTH input tables (rows included), and results that belong to the caller
+        import copy as _copy
+        stab, ptab = cux.make_strand_table(list(seq0)), cux.make_pair_table(s)
+        st0, pt0 = _copy.deepcopy(stab), _copy.deepcopy(ptab)
+        try:
+            r = [(_copy.deepcopy(a), _copy.deepcopy(b)) for a, b in cux.split_complex_pt(stab, ptab)]
+            if stab != st0 or ptab != pt0:
+                res.violation('split_complex_pt:modifies-input', {'op': ['split', ' '.join(seq0), s]},
+                              'pair table after the call: %r' % (ptab,), 'inputs untouched (rows included): %r' % (pt0,))
+            r2 = [(_copy.deepcopy(a), _copy.deepcopy(b)) for a, b in cux.split_complex_pt(stab, ptab)]
+            if r2 != r:
+                res.violation('split_complex_pt:second-call-differs', {'op': ['split', ' '.join(seq0), s]}, repr(r2)[:160], repr(r)[:160])
+        except Exception as e:
+            res.violation('split_complex_pt:raises:' + type(e).__name__, {'op': ['split', ' '.join(seq0), s]}, type(e).__name__, 'components, twice')
+        cu.fresh_results(res, 'split_complex_db', lambda: cux.split_complex_db(list(seq0), list(sst0)), {'op': ['split', ' '.join(seq0), s]})
     got = 'ok ' + ' ; '.join(' '.join(a) + ' / ' + ''.join(b) for a, b in parts)
     orig_strands = list(_split(seq0))
     ok = len(parts) == len(comps)
@@ -123,6 +139,64 @@ def util_oracle(res, cux, s):
                       '%d parts = connected components %r (cyclic order, same pairs, each connected)' % (len(comps), comps))
         return None
     return parts
+
+
+class _SubComplex:            # created lazily (the library must be imported from the repo under test first)
+    cls = None
+
+
+def subclass_split(res, rng, s, parts):
+    """split() of a user subclass yields singletons of THAT class: the live subclass object of a component if there is one,
+    never an equal object of the base class; a connected subclass complex yields itself"""
+    from dsdobjects import clear_singletons, SingletonError
+    from dsdobjects.base_classes import ComplexS, DomainS
+    if _SubComplex.cls is None:
+        _SubComplex.cls = type('MyComplex', (ComplexS,), {})
+    Sub = _SubComplex.cls
+    names = gen.label(s, rng, ['a', 'b'])
+    clear_singletons(DomainS); clear_singletons(ComplexS); clear_singletons(Sub)
+    ComplexS.ID = 1
+    dom = {n: DomainS(n, 5) for n in ('a', 'b')}
+    uniq = [x for x in gen.label(s, unique=True) if x != '+']
+    rename = dict(zip(uniq, [x for x in names if x != '+']))
+    comps = [([rename.get(x, x) for x in a], list(b)) for a, b in parts]
+    desc = {'op': ['MyComplex.split', ' '.join(names), s]}
+    def mk(K, a, b, name):
+        return K([dom[x] if x != '+' else '+' for x in a], list(b), name=name)
+    try:
+        a0, b0 = comps[0]
+        twin = mk(ComplexS, a0, b0, 'basetwin')            # an equal complex in the BASE class registry
+        whole_rots = set(ref.rotations(names, s))
+        live = None
+        if len(comps) > 1 or rng.random() < 0.5:
+            if not (set(ref.rotations(a0, b0)) & whole_rots) or len(comps) > 1:
+                live = mk(Sub, a0, b0, 'live0')             # the live subclass object of the first component
+        whole = mk(Sub, names, s, 'whole') if not (live is not None and len(comps) == 1) else live
+        got = list(whole.split())
+        bad = []
+        if len(got) != len(comps):
+            bad.append('%d parts' % len(got))
+        for g in got:
+            if type(g) is not Sub:
+                bad.append('a part is a %s' % type(g).__name__)
+            elif Sub._instanceNames.get(g.name) is not g:
+                bad.append('part %s is not registered in the subclass' % g.name)
+        if got and got[0] is twin:
+            bad.append('the base-class twin was returned')
+        if live is not None and len(comps) > 1 and got and got[0] is not live:
+            bad.append('the live subclass component was not returned')
+        if len(comps) == 1 and got and got[0] is not whole:
+            bad.append('a connected complex did not yield itself')
+        if bad:
+            res.violation('split():subclass', desc, '; '.join(bad[:3]), 'singletons of the subclass (the live one if it exists)')
+        del got, whole, live, twin
+    except SingletonError:
+        pass
+    except Exception as e:
+        res.violation('split():subclass:raises:' + type(e).__name__, desc, type(e).__name__, 'components')
+        e = None
+    clear_singletons(ComplexS); clear_singletons(Sub)
+    res.count('subclass_split_scenarios')
 
 
 def object_oracle(res, rng, s, parts, tier):
@@ -302,7 +376,14 @@ def run(res, proof):
             res.nontriv(s)
             if len(parts) <= 3 and len(s) <= 12 and obj_budget > 0 and rng.random() < 0.2:
                 obj_budget -= 1
-                object_oracle(res, rng, s, parts, res.tier)
+                subclass_split(res, rng, s, parts)
+                try:
+                    object_oracle(res, rng, s, parts, res.tier)
+                except Exception as e:
+                    res.violation('split():raises:' + type(e).__name__, {'op': ['ComplexS.split', ' '.join(gen.label(s, unique=True)), s]},
+                                  type(e).__name__ + ' during split() scenarios on a well-formed complex (first or repeated split)',
+                                  'components, or SingletonError on an automatic-name collision')
+                    e = None
     impl = [cu.impl_op(cux, op) for op in ops]
     lines = ['\t'.join(op) for op in ops]
     try:
